@@ -124,23 +124,48 @@ Print Assumptions C04_calc2_stopped_state_invariant.
 Theorem C04_calc2_losers_stopped_a : forall k a b ns sa sb id o cx sa' tra oa st' tr r hit tok,
   is_seq k = false ->
   live tok (Bin k a b) (ONode ns sa sb) ->
-  adone ns = false -> leafev a sa id o cx = (sa', tra, Some oa, true) ->
+  adone ns = false ->
+  child_ev (bin_throw k false) false a sa id (tmode o) o cx = (sa', tra, Some oa, true) ->
   loser_cond k oa -> own_stop ns = false -> bdone ns = false ->
   leafev (Bin k a b) (ONode ns sa sb) id o cx = (st', tr, r, hit) ->
   forall id', In id' (reach_unseen b sb) -> In (TLeafStop id') tr.
 Proof. exact losers_stopped_a. Qed.
 Print Assumptions C04_calc2_losers_stopped_a.
 
+(* the stage-3 statement: the event is not a re-delivery and a's completion is not a throwing value *)
+Theorem C04_calc2_losers_stopped_a_plain : forall k a b ns sa sb id o cx sa' tra oa st' tr r hit tok,
+  is_seq k = false ->
+  live tok (Bin k a b) (ONode ns sa sb) ->
+  is_k o = false -> (forall v, oa <> OValT v) ->
+  adone ns = false -> leafev a sa id o cx = (sa', tra, Some oa, true) ->
+  loser_cond k oa -> own_stop ns = false -> bdone ns = false ->
+  leafev (Bin k a b) (ONode ns sa sb) id o cx = (st', tr, r, hit) ->
+  forall id', In id' (reach_unseen b sb) -> In (TLeafStop id') tr.
+Proof. exact losers_stopped_a_plain. Qed.
+Print Assumptions C04_calc2_losers_stopped_a_plain.
+
 Theorem C04_calc2_losers_stopped_b : forall k a b ns sa sb id o cx sb' trb ob st' tr r hit tok,
   is_seq k = false ->
   live tok (Bin k a b) (ONode ns sa sb) ->
-  (adone ns = false -> snd (leafev a sa id o cx) = false) ->
-  bdone ns = false -> leafev b sb id o cx = (sb', trb, Some ob, true) ->
+  (adone ns = false -> snd (leafev a sa id (tmode o) cx) = false) ->
+  bdone ns = false -> leafev b sb id (tmode o) cx = (sb', trb, Some ob, true) ->
   loser_cond k ob -> own_stop ns = false -> adone ns = false ->
   leafev (Bin k a b) (ONode ns sa sb) id o cx = (st', tr, r, hit) ->
   forall id', In id' (reach_unseen a sa) -> In (TLeafStop id') tr.
 Proof. exact losers_stopped_b. Qed.
 Print Assumptions C04_calc2_losers_stopped_b.
+
+Theorem C04_calc2_losers_stopped_b_plain : forall k a b ns sa sb id o cx sb' trb ob st' tr r hit tok,
+  is_seq k = false ->
+  live tok (Bin k a b) (ONode ns sa sb) ->
+  is_k o = false ->
+  (adone ns = false -> snd (leafev a sa id o cx) = false) ->
+  bdone ns = false -> leafev b sb id o cx = (sb', trb, Some ob, true) ->
+  loser_cond k ob -> own_stop ns = false -> adone ns = false ->
+  leafev (Bin k a b) (ONode ns sa sb) id o cx = (st', tr, r, hit) ->
+  forall id', In id' (reach_unseen a sa) -> In (TLeafStop id') tr.
+Proof. exact losers_stopped_b_plain. Qed.
+Print Assumptions C04_calc2_losers_stopped_b_plain.
 
 Theorem C04_calc2_when_any_first_finisher : forall o, loser_cond BWhenAny o.
 Proof. exact when_any_first_finisher. Qed.
